@@ -36,6 +36,7 @@ void SimulateF100L::reset()
 {
   memset(&cr, 0, sizeof(cr));
 
+  accum = 0;
   pc = org;
 }
 
